@@ -91,12 +91,19 @@ treatment in `Model/Writer.lean` - `Inner`, `EncState`, `WExt`, `switchTo`, `emi
     write: their chunks through `M.writeChunks`); `for x in vec.iter() { … }` whose body assigns nothing
     outside and leaves only by `?` is `Rs.S.forEach`; `inner.unwrap()` is `get_plain` by value;
     `let _ = write!(io::stderr(), …)` is dropped (the process's stderr is not modelled);
-  * `inner.switch_to(method, level)` is the model's `switchTo` (`Rs.S.switch_to`, `switchTo_via`: finish
-    the running encoder - `ext.compress` of everything it consumed goes to the sink or into the ZipCrypto
-    buffer, with the destructor's second attempt of flate2 / bzip2 after a failed write -, level
-    check, new encoder); the method value is read through `Tie.Types.methodOf` (`Tie/WriterVocab.lean`);
-  * `ZipCryptoWriter::finish(crc32)` is `Rs.S.zc_finish` (panic below 12 buffered bytes, check byte,
-    `ext.zcEncrypt`, `write_all`, `flush`); `GenericZipWriter::Storer(MaybeEncrypted::Encrypted(w))` is
+  * `inner.switch_to(method, level)` is written `Rs.S.switch_to` and read as the model's `switchTo`
+    (`switchTo_via`).  NO LONGER AN ASSUMPTION: `GenericZipWriter::switch_to` itself is translated
+    (`Gen/SwitchTo.lean`) and `Tie/SwitchTo.lean` (`tie_switch_to`) proves it equal to `Rs.S.switch_to` on every
+    Rust value of the enum - the early return, the `Closed` left behind by every refusal, the level ranges, the
+    AES / Unsupported refusals are the source's; what stays assumed there is the encoders' own behaviour
+    (`finish()`: `ext.compress` of everything consumed goes to the sink or into the ZipCrypto buffer, with the
+    destructor's second attempt of flate2 / bzip2 after a failed write; the constructors; the libraries' level
+    constants); the method value is read through `Tie.Types.methodOf` (`Tie/WriterVocab.lean`);
+  * `ZipCryptoWriter::finish(crc32)` is written `Rs.S.zc_finish` (panic below 12 buffered bytes, check byte,
+    `ext.zcEncrypt`, `write_all`, `flush`).  LINKED to the translated `Gen.ZipCryptoWriter.finish` by
+    `Tie/ZcFinish.lean` (`tie_zc_finish`: same outcome, error kind and - on `Ok` - device, with `ext.zcEncrypt pw`
+    = the PKWARE encryption under the keys derived from `pw`);
+    `GenericZipWriter::Storer(MaybeEncrypted::Encrypted(w))` is
     `Inner.storer (some w)`, `…::Unencrypted(sink)` is `Inner.storer none`;
   * `mem::replace(&mut self.inner, Closed)`: the old value is moved out; DROPPING it is not modelled (a
     flate2 / bzip2 encoder would flush into the sink from its destructor; the model covers that only
